@@ -140,7 +140,8 @@ def main(argv=None):
                 h = hs[n]
                 if h.kind == 'custom':
                     ctx = dict(tier=tier, seed=seed, env=env, scratch=scratch, root=ROOT,
-                               known=open_sigs, py=PY, ncpu=NCPU)
+                               known=open_sigs, py=PY, ncpu=NCPU,
+                               evdir=os.environ.get('VP_EVIDENCE_DIR') or os.path.join(ROOT, 'evidence'))
                     custom[n] = h.run(tier, ctx)
             for n, impl, f in futs:
                 results.setdefault((n, impl), []).append(f.result())
@@ -151,7 +152,8 @@ def main(argv=None):
         violations = []
         replays_attempted = replays_reproduced = 0
         per_h = []
-        os.makedirs(os.path.join(ROOT, 'evidence', 'replays'), exist_ok=True)
+        EVDIR = os.environ.get('VP_EVIDENCE_DIR') or os.path.join(ROOT, 'evidence')   # redirected only by tools/seed_matrix.sh
+        os.makedirs(os.path.join(EVDIR, 'replays'), exist_ok=True)
         for (n, impl), sts in sorted(results.items()):
             h = hs[n]
             t = h.tiers.get(tier) or h.tiers.get('quick')
@@ -189,7 +191,7 @@ def main(argv=None):
                             kk['count'] += 1
                             continue
                         idx = len(violations)
-                        rpath = os.path.join(ROOT, 'evidence', 'replays',
+                        rpath = os.path.join(EVDIR, 'replays',
                                              '%s-%s-%s-%d.json' % (prop, n, impl, idx))
                         with open(rpath, 'w') as f:
                             json.dump(dict(property=prop, harness=n, impl=impl,
